@@ -245,6 +245,12 @@ def dispatch_call(it, f, a, k):
                 return r
         if name in MUTATORS:
             it.note_effect("call:" + name, slf)
+    fmod = (getattr(f, "__module__", None) or type(f).__module__ or "").split(".")[0]
+    if fmod == "numpy" and getattr(f, "__self__", None) is None and \
+            any(symbolic(x) and not hasattr(type(x), "__array_ufunc__") for x in list(a) + list(k.values())):
+        # numpy accepts any object (it wraps it into a 0-d / 1-d object array) instead of rejecting it: without a model the
+        # result would be about the wrapper, not about the value
+        raise Unsupported(f"numpy.{getattr(f, '__name__', f)} on a symbolic value (no model)")
     try:
         return f(*a, **k)
     except Unmediated:
@@ -1029,7 +1035,19 @@ def _range(it, a, k):
             n = as_int_term(a[0])
             ln = mk_int(it.path.pick(n > 0, n, z3.IntVal(0)))
             return SymSeq(ln, lambda i: i if is_concrete_int(i) else mk_int(as_int_term(i)), range, "range")
-        raise Unsupported("range with symbolic start/step")
+        start, stop = as_int_term(a[0]), as_int_term(a[1])
+        step = as_int_term(a[2]) if len(a) == 3 else z3.IntVal(1)
+        if not it.path.entails(step > 0):
+            raise Unsupported("range with a symbolic step that is not known to be positive")
+        span = z3.simplify(stop - start)
+        if not it.truth(mk_bool(span > 0)):
+            return SymSeq(0, lambda i: i, range, "range")
+        if z3.is_int_value(z3.simplify(step)) and z3.simplify(step).as_long() == 1:
+            ln = mk_int(span)
+        else:
+            # number of elements = ceil(span / step), named by the integer-ceiling constant of math.ceil's model
+            ln = _ceil(it, [Sym(z3.ToReal(span) / z3.ToReal(step), "ratio", tag=(span, step))], {})
+        return SymSeq(ln, lambda i: mk_int(z3.simplify(start + as_int_term(i) * step)), range, "range")
     return NotImplemented
 
 
